@@ -304,6 +304,9 @@ def history_strategy(tier):
                 if m.startswith("CTS") and len(M) < B:
                     M = (M + iv + iv)[:B + len(M) % 3]
                 ops.append((k, M))
+            if m == "CTR":
+                # the counter of a live object is re-configured between two encryptions in every CTR history
+                ops = [(("setup" if k == "bad-enc" else k), M) for k, M in ops] + [("enc", msgs[0]), ("setup", msgs[-1]), ("enc", msgs[0])]
             c["ops"] = tuple(ops)
             return c
         return st.builds(build, st.sampled_from(["ECB", "CBC", "CTR", "CTS_ECB", "CTS_CBC"]),
